@@ -271,3 +271,64 @@ Proof.
   unfold gap_result in H2. intro Heq. rewrite Heq in H2. cbn in H2. discriminate H2.
 Qed.
 
+Lemma unguarded_list :
+  filter (fun t => let '(c, e, m) := t in in_scope c e m && negb (guarded c e m)) all_triples =
+  [(KDiscretizer, EInit, MFeatureOverlap); (KDiscretizer, ETransform, MQuantStr);
+   (KQuantitative, ETransform, MQuantStr); (KOrdinal, EFit, MOrdinalUnknown);
+   (KContinuous, EFit, MXNotFrame); (KContinuous, EFit, MYNotSeries); (KContinuous, EFit, MYNaN);
+   (KContinuous, EFit, MIndexMismatch); (KContinuous, EFit, MMissingCol); (KContinuous, EFit, MQuantStr);
+   (KContinuous, ETransform, MQuantStr); (KBinary, ETransform, MQuantStr);
+   (KContinuousCarver, ETransform, MQuantStr); (KMulticlass, ETransform, MMissingCol);
+   (KMulticlass, ETransform, MQuantStr)].
+Proof. vm_compute. reflexivity. Qed.
+
+(* inside guarded triples: variants of the malformation that hit a non-assertion failure point
+   (X is None, y shorter than X, a continuous target mixing str and numbers) *)
+Lemma crash_gaps_refuted :
+  forallb (fun t => let '(c, e, m, i) := t in
+             guarded c e m && exhibits c e m false i &&
+             result_eqb (fst (run_call (csteps Repaired c e) (mkObj false 0) i)) ROther)
+          crash_gap_witnesses = true /\ length crash_gap_witnesses = 17.
+Proof. split; vm_compute; reflexivity. Qed.
+
+(* ------------------------------------------------------------------------------------------ *)
+(* non-vacuity: a valid call passes every check                                                 *)
+(* ------------------------------------------------------------------------------------------ *)
+Lemma accept_valid : forall (c : cls) (dev ordinal : bool) (t : tree),
+  run_call (csteps t c EInit) (mkObj false 0) (valid_input c dev ordinal) = (ROk, mkObj false 1) /\
+  (exists n, run_call (csteps t c EFit) (mkObj false 0) (valid_input c dev ordinal) = (ROk, mkObj true n)) /\
+  run_call (csteps t c ETransform) (mkObj true 5) (valid_input c dev ordinal) = (ROk, mkObj true 5) /\
+  crash_free (csteps t c EFit) false (valid_input c dev ordinal) = true /\
+  forallb (fun m => negb (exhibits c EFit m false (valid_input c dev ordinal))) all_mals = true.
+Proof.
+  intros c dev ordinal t.
+  destruct c, dev, ordinal, t; (split; [vm_compute; reflexivity|]);
+    (split; [eexists; vm_compute; reflexivity|]); repeat split; vm_compute; reflexivity.
+Qed.
+
+(* ------------------------------------------------------------------------------------------ *)
+(* the checker                                                                                  *)
+(* ------------------------------------------------------------------------------------------ *)
+Lemma verdict19_zero_sound : forall k : case19,
+  verdict19 k = 0 ->
+  in_domain k = true /\ prop19 k = true /\ (agree Repaired k = true \/ agree Current k = true).
+Proof.
+  intros k H. unfold verdict19 in H.
+  destruct (in_domain k); cbn [negb] in H; [|discriminate H].
+  destruct (prop19 k); cbn [negb] in H; [|discriminate H].
+  destruct (agree Repaired k); cbn [orb] in H; [tauto|].
+  destruct (agree Current k); [tauto | discriminate H].
+Qed.
+
+(* prop19 says what C19 says: a malformed call was answered with AssertionError and an object
+   fitted before the call is observably what it was *)
+Lemma prop19_spec : forall k : case19,
+  prop19 k = true -> k_mal k <> MNone ->
+  k_result k = RAssert /\ (k_fitted k = true -> k_unchanged k = true).
+Proof.
+  intros k H Hm. unfold prop19 in H.
+  destruct (k_mal k); try (exfalso; apply Hm; reflexivity);
+    apply andb_prop in H; destruct H as [H1 H2];
+    (split; [destruct (k_result k); cbn in H1; try discriminate H1; reflexivity
+            | intro Hf; rewrite Hf in H2; exact H2]).
+Qed.
